@@ -202,18 +202,29 @@ def multi_file_cases(run, docs_, n):
         rng.shuffle(paths)
         uris = [m["uri"] for b, _, _ in sel for m in b["models"]]
         run.case({"multi": [os.path.basename(os.path.dirname(p)) + "/" + os.path.basename(p) for p in paths]}, nontrivial=len(set(uris)) < len(uris), tag="multi" + (":shared-uri" if len(set(uris)) < len(uris) else ""))
-        pr = P.impl_parse_files(list(paths))
+        by_path = {p: b for b, p, _ in sel}
+        flt = None
+        if rng.random() < 0.5:
+            # with the optional namespaces argument: only the files one of whose model URIs is listed are read at all —
+            # also when a listed file names an unlisted one among its NamespaceUris
+            listed = [u for u in dict.fromkeys(uris) if rng.random() < 0.5]
+            if listed:
+                flt = [UA] + listed
+        pr = P.impl_parse_files(list(paths), flt)
         if "err" in pr:
             run.count("multi:unparseable")
             continue
-        by_path = {p: b for b, p, _ in sel}
-        want = [m for p in sorted(paths) for m in by_path[p]["models"]]
+
+        def kept(p_):
+            fns = ["http://opcfoundation.org/UA", UA] if p_.endswith("Opc.Ua.NodeSet2.xml") else [m["uri"] for m in by_path[p_]["models"]]
+            return flt is None or any(u in fns for u in flt)
+        want = [m for p in sorted(paths) if kept(p) for m in by_path[p]["models"]]
         got = [{"uri": m["uri"], "version": m["version"], "publication_date": m["publication_date"],
                 "required": [{"uri": r["uri"], "version": r["version"], "publication_date": r["publication_date"]} for r in m["required_models"]]}
                for m in pr["models"]]
         if got != want:
             run.violation({"files": {p: by_path[p]["text"] for p in sorted(paths)}},
-                          {"what": "parse_xml_files over several documents does not list every document's models as declared", "impl": got, "expected": want,
+                          {"what": "parse_xml_files over several documents does not list exactly the models of the documents it was asked for, as declared", "namespaces": flt, "impl": got, "expected": want,
                            "call": "opcua_tools.parse_xml_files(files)['models']"})
             return
 
